@@ -80,6 +80,12 @@ def outcome(lib, smi):
         return ('raises:%s' % type(e).__name__, str(e)[:150])
 
 
+def same_out(a, b):
+    if a[0] != b[0]:
+        return False
+    return a[0] != 'ok' or all(abs(a[1].get(k, 0) - b[1].get(k, 0)) <= 1e-12 for k in set(a[1]) | set(b[1]))
+
+
 def check_mix(ctx, case):
     L, comps = case['lib'], case['comps']
     lib = shipped.lib(L)
@@ -125,6 +131,22 @@ def check_mix(ctx, case):
             kind = 'correction' if all('(' not in k for k in diff) else 'groups'
             ctx.fail('mixture-not-the-sum:%s' % kind, '[%s] %r: (mixture, sum of components) differ at %s' % (L, smi, diff))
             continue
+        if order is comps and all(o[0] == 'ok' for o in parts) and len(comps) <= 3:
+            # the species as ONE RDKit Mol object built (CombineMols) from component Mol objects that carry their hydrogens as
+            # atoms and were themselves decomposed just before
+            hm = [Chem.AddHs(Chem.MolFromSmiles(c)) for c in comps]
+            pre = [outcome(lib, x) for x in hm]
+            comb = hm[0]
+            for x in hm[1:]:
+                comb = Chem.CombineMols(comb, x)
+            gm = outcome(lib, comb)
+            ctx.count()
+            ctx.event('mol-object-mixture')
+            if any(not same_out(a, b) for a, b in zip(pre, parts)):
+                ctx.fail('component-as-Mol-object-differs', '[%s] components %s as explicit-hydrogen Mol objects give %s, as SMILES %s' % (L, comps, pre, parts))
+            elif gm[0] != 'ok' or any(abs(gm[1].get(k, 0) - want.get(k, 0)) > 1e-12 for k in set(gm[1]) | set(want)):
+                ctx.fail('mixture-not-the-sum:Mol-object', '[%s] CombineMols of the explicit-hydrogen Mol objects of %s gives %s, the components sum to %s'
+                         % (L, comps, gm if gm[0] != 'ok' else dict(gm[1]), dict(want)))
         if sum(map(ord, smi)) % 5 == 0:
             m = _pg()
             try:
